@@ -277,7 +277,8 @@ def search(ctx, rep, disagreements):
 def replay(ctx, rep, case):
     s = case['text']
     print('  text :', repr(s))
-    oracle_texts([s], rep, case.get('stream', 'replay'))
+    oracle_texts([s], rep, case.get('stream', 'replay'),
+                 expect_accept=case.get('stream') in ('grammar', 'small', 'findings-wellformed'))
     try:
         outs = lc.drive([lc.line('scan', s), lc.line('split', s), lc.line('parse_equation_text', s)])
         print('  model:', outs)
